@@ -233,12 +233,12 @@ class ProgGen(object):
         # Conditionals (if / => / and / or) are generated inside functions, lambdas, generators, domain operations and
         # macros only: at file level the type checker's conditional context mis-resolves overloaded, qualified and
         # literal meanings (open findings F3, F5, F6 and relatives, each kept visible by a fixed program).
-        nocond = not self.in_fun and not self.in_macro
+        nocond = (not self.in_fun and not self.in_macro) or getattr(self, "plain", 0) > 0
         if nocond:
             choices = [c for c in choices if c != "logic"]
         else:
             choices += ["if"]
-        if "exit" in self.feat and not self.in_exit_cond and not nocond:
+        if "exit" in self.feat and not self.in_exit_cond and not nocond and not getattr(self, "plain", 0):
             choices += ["exitseq"]
         # operands must be free of side effects: the order of evaluation of operands is undefined
         fs = [i for i, f in enumerate(self.funs) if tkey(f["rt"]) == tkey(t) and self.here(f) and f.get("pure")]
@@ -286,6 +286,8 @@ class ProgGen(object):
                 for x, (vt, _) in all_vars.items():
                     if tkey(vt) == tkey(t) and not nocond and self.in_fun:
                         choices.append(("rest", x))
+        if getattr(self, "plain", 0) > 0:       # a one-line expression (the text of an assertion is quoted in its message)
+            choices = [c_ for c_ in choices if c_ not in ("where", "mac", "dcall", "acall", "if", "exitseq", "collect")] or ["lit"]
         c = r.choice(choices)
         if c == "acall":
             k, o = r.choice(aops)
@@ -735,7 +737,9 @@ class ProgGen(object):
                 v = {"e": "tuple", "args": [self.expr(t, scope, max(d - 1, 0)) for t in ts]}
             return {"e": "masg", "xs": [x for x, _ in xs], "v": v, "t": UNIT}
         if c == "assert":
+            self.plain = getattr(self, "plain", 0) + 1
             cond = self.expr(BOOL, scope, d - 1)
+            self.plain -= 1
             u = r.random()
             if u < 0.4:                     # many assertions hold whatever the condition says, some fail whatever it says
                 cond = {"e": "or", "a": cond, "b": {"e": "bool", "b": True}}
